@@ -128,6 +128,23 @@ func (x *Exec) cond(s *State, fr *Frame, e ast.Expr) Term {
 	return n
 }
 
+// branchCond evaluates the condition of a branching statement. States are merged
+// on their path decisions, so a quantified condition (which is kept as a fact,
+// not as a decision) must be named also while a contract expression is being
+// evaluated (inlined bodies); otherwise both branches would merge under "true".
+func (x *Exec) branchCond(s *State, fr *Frame, e ast.Expr) Term {
+	c := x.cond(s, fr, e)
+	if strings.Contains(c.S, "(forall ") || strings.Contains(c.S, "(exists ") {
+		if len(x.bound) > 0 {
+			unsup("branch on a quantified condition under a bound variable: %s", exprText(x.w.Fset, e))
+		}
+		q := x.ctx.Fresh("qcond", SBool)
+		s.facts = append(s.facts, Eq(q, c))
+		return q
+	}
+	return c
+}
+
 // goalParts records the logical structure of a boolean term so that proof goals
 // can be split into one obligation per conjunct / direction.
 type goalParts struct {
